@@ -76,7 +76,6 @@ package stanza
 //@   ensures[C13] p.Lang != "" ==> hasAttr(result.Attr, "http://www.w3.org/XML/1998/namespace", "lang", p.Lang)
 //@   ensures[C13] len(result.Attr) <= 5
 
-
 // Replies and errors swap the addresses and set the kind; everything else is
 // taken over unchanged.
 //@ func (IQ).Result
